@@ -122,7 +122,15 @@ func (g *Gen) mutateTx(line string, n int) []string {
 		case fkAddr:
 			switch g.pick(7) {
 			case 6:
-				v = set(fs, f.k+"upper", "1")
+				// the all-upper-case spelling, for RECEIVER fields only (the handlers decode those to bytes). Sender
+				// fields are left in the canonical lower-case rendering: several owner checks of the repository
+				// compare the bech32 TEXT (msg.From != plan.ProviderAddress ...), so the owner's own message in upper
+				// case is refused - observed, recorded in DESIGN.md section 8 as an observation outside the domain
+				if f.k == "to" || f.k == "recv" {
+					v = set(fs, f.k+"upper", "1")
+				} else {
+					v = set(fs, f.k+"role", []string{"acc", "node", "prov"}[g.pick(3)])
+				}
 			case 0:
 				v = set(fs, f.k+"bad", "1")
 			case 1, 2:
